@@ -28,6 +28,23 @@ def keymap_table(tier):
     return t
 
 
+def option_sweep():
+    """one keymap per option value klepto advertises: every named hash algorithm (klepto.crypto.algorithms(), plus
+    upper-case aliases hashlib.new accepts), every serializer, a handful of string encodings.  Explored on one
+    variadic signature (the call set is the same)"""
+    import klepto.keymaps as km
+    import klepto.crypto as kc
+    out = []
+    algs = sorted(a for a in kc.algorithms() if a and not a.startswith('shake_'))     # shake_* need a length: they raise
+    for a in algs + ['SHA256', 'MD5']:
+        out.append(('hashmap(%s)' % a, lambda a=a: km.hashmap(algorithm=a)))
+    for ser in sorted(x for x in kc.serializers() if x):
+        out.append(('picklemap(%s,flat=False)' % ser, lambda ser=ser: km.picklemap(serializer=ser, flat=False)))
+    for enc in ('utf-8', 'ascii', 'latin-1', 'utf-16', 'cp437'):
+        out.append(('stringmap(%s)' % enc, lambda enc=enc: km.stringmap(encoding=enc)))
+    return out
+
+
 def structured_values():
     return ['s', 'two words', b'by', 1.5, -0.0, 10 ** 20, None, True, (1, 'a'), ((1, 2), ('x', 2.5)), [1, 'l'],
             {'k': 1, 'j': [2.5, 'v']}, {'b': 1, 'a': 2}, frozenset([1]), ('nest', [1, {'d': (None,)}])]
@@ -79,8 +96,9 @@ def keys_mode(tier, nohash):
         klepto.crypto.__dict__['__hash'] = raiser
     out = {}
     calls = call_sets(tier)
-    for kmname, mk in keymap_table(tier):
-        for src, f in functions():
+    table = [(n, mk, False) for n, mk in keymap_table(tier)] + [(n, mk, True) for n, mk in option_sweep()]
+    for kmname, mk, sweep in table:
+        for src, f in (functions()[1:2] if sweep else functions()):
             W = klepto.inf_cache(keymap=mk())(f)
             rows = []
             for a, kw in calls:
@@ -92,7 +110,7 @@ def keys_mode(tier, nohash):
                     k = W.key(*a, **dict(kw))
                     rows.append(repr(k))
                 except Exception as e:
-                    if kmname == 'picklemap(json)' and isinstance(e, TypeError):
+                    if kmname.startswith('picklemap(json') and isinstance(e, TypeError):
                         rows.append('unencodable')      # json cannot encode bytes/tuples-as-keys etc.
                     else:
                         rows.append('EXC %s %s' % (type(e).__name__, str(e)[:80]))
